@@ -144,6 +144,7 @@ class STok:
         dims = list(self.shape)
         i = 0
         plain = True
+        unit_only = True  # only new unit axes, full slices and integer picks on axes of size one: a reshape
         for sl in ks:
             if sl is None:
                 shape.append(1)
@@ -152,6 +153,8 @@ class STok:
                 continue
             d = dims[i]
             i += 1
+            if not ((isinstance(sl, slice) and sl == slice(None)) or (isinstance(sl, int) and not isinstance(sl, bool) and d == 1 and sl in (0, -1))):
+                unit_only = False
             if isinstance(sl, slice):
                 r = range(*sl.indices(d))
                 shape.append(len(r))
@@ -164,13 +167,13 @@ class STok:
             else:
                 raise IndexError(f"index {sl!r} on an abstract block of shape {self.shape}")
         shape += dims[i:]
-        if all(d is None or (isinstance(d, tuple) and d == (None, None, None)) for d in desc):
-            return self.reshape(tuple(shape))  # only new unit axes: a reshape
+        if unit_only:
+            return self.reshape(tuple(shape))
         if plain:
             n = self._restrict(tuple(desc))
             if n is not None:
                 return n
-        return STok(("slice", self.term, tuple(desc)), shape)
+        return STok(("slice", self.term, tuple(desc), self.shape), shape)
 
     def _restrict(self, desc):
         """normalising slice: a window of a structured block (concat / zeros+placements) that does not cut through any
@@ -337,6 +340,14 @@ class STok:
             return STok(t[1], self.shape)
         if isinstance(t, tuple) and t and t[0] == "zeros":
             return self
+        if isinstance(t, tuple) and t and t[0] in ("conj", "slice"):
+            # canonical form: signs sit at the leaves; conjugation and element selection are linear
+            inner_shape = self.shape if t[0] == "conj" else (t[3] if len(t) > 3 else None)
+            if inner_shape is not None:
+                ninner = (-STok(t[1], inner_shape)).term
+            else:
+                ninner = t[1][1] if isinstance(t[1], tuple) and t[1] and t[1][0] == "neg" else ("neg", t[1])
+            return STok((t[0], ninner) + tuple(t[2:]), self.shape)
         if isinstance(t, tuple) and t and t[0] == "reshape" and len(t) == 4:
             # canonical form: signs sit at the leaves, re-indexing outside
             return STok(("reshape", (-STok(t[1], t[3])).term, t[2], t[3]), self.shape)
